@@ -22,5 +22,7 @@ import LdkModel.Props.ChanProto
 #print axioms Ldk.ChanProto.joint_invariant_partial
 #print axioms Ldk.ChanProto.agreement_fails_raa_order
 #print axioms Ldk.ChanProto.agreement_fails_overdraw
+#print axioms Ldk.ChanProto.stream_accounting_partial
+#print axioms Ldk.ChanProto.lost_messages_retransmitted_partial
 #print axioms Ldk.ChanProto.next_stats_sender_covers_peer_partial
 #print axioms Ldk.ChanProto.next_stats_holder_counts_signed
